@@ -350,8 +350,35 @@ def _check(case, rec, t):
         import h5py
         with tempfile.TemporaryDirectory(prefix="vf-c19-", dir=TMP) as d:
             p = os.path.join(d, "t.biom")
-            with h5py.File(p, "w") as f:
-                t.to_hdf5(f, "vf")
+            # the commands take a table in any of the file formats
+            infmt = ["hdf5", "json", "tsv", "tsv_md", "hdf5"][
+                (case["n"] + 2 * case["m"]) % 5]
+            if infmt.startswith("tsv") and (
+                    not n or not m or
+                    any(i != i.strip() or "\t" in i or "\n" in i or
+                        i.startswith("#") or not i
+                        for i in ref.obs + ref.samp)):
+                infmt = "json"
+            if infmt == "tsv_md" and not (
+                    before["obs_md"] and all(
+                        isinstance(m_.get("k"), str) and m_["k"].strip()
+                        and not m_["k"][0].isdigit()
+                        for m_ in before["obs_md"])):
+                infmt = "tsv"
+            rec.cls("input:" + infmt)
+            if infmt == "hdf5":
+                with h5py.File(p, "w") as f:
+                    t.to_hdf5(f, "vf")
+            elif infmt == "json":
+                with open(p, "w", encoding="utf8") as f:
+                    f.write(t.to_json("vf"))
+            else:
+                p = os.path.join(d, "t.tsv")
+                kw_ = {} if infmt == "tsv" else {
+                    "header_key": "k", "header_value": "taxonomy",
+                    "metadata_formatter": str}
+                with open(p, "w", encoding="utf8") as f:
+                    f.write(t.to_tsv(**kw_))
             if kind == "table_ids":
                 from ..cli import command
                 table_ids = command("table-ids")
@@ -455,7 +482,25 @@ def _check(case, rec, t):
                 jt = t.to_json("vf")
                 open(p, "w", encoding="utf8").write(jt)
                 flag = "-m" if ax == "sample" else "--observation-metadata-fp"
-                out = run_cmd(export_metadata, ["-i", p, flag, o], case.get("sub"))
+                args = ["-i", p, flag, o]
+                o2 = os.path.join(d, "other-axis.tsv")
+                oax = "observation" if ax == "sample" else "sample"
+                if case["flag"]:
+                    # both axes asked for in one call, each into its file
+                    args = ["-i", p, "-m", o if ax == "sample" else o2,
+                            "--observation-metadata-fp",
+                            o2 if ax == "sample" else o]
+                out = run_cmd(export_metadata, args, case.get("sub"))
+                if case["flag"] and os.path.exists(o2):
+                    ids2 = [r_[0] for r_ in csv.reader(
+                        open(o2, encoding="utf8", newline=""),
+                        delimiter="\t")][1:]
+                    oids = ref.obs if oax == "observation" else ref.samp
+                    if ids2 != oids:
+                        bad(kind, "the file written for the %s axis lists "
+                            "%r; that axis holds %r (metadata: %r)" %
+                            (oax, ids2, oids, t.metadata(axis=oax)
+                             is not None))
                 if not os.path.exists(o):
                     bad(kind, "export-metadata wrote no file for the %s "
                         "axis (which has metadata): %r" % (ax, out))
